@@ -122,6 +122,13 @@ CHECKS = {
                      "watch sets, values, bounds, learnt clause set) equal the sequential build. Unsynchronised accesses are looked for by "
                      "ThreadSanitizer on free runs of the same bodies.",
                 note="Bounds per scenario/pool are listed in the evidence (levels_completed); race-freedom rests on a dynamic detector over sampled free runs, as a serialising scheduler cannot see races."),
+    "C19": dict(engine="execmc", category="model_checking", design_ref="DESIGN.md §4 C19",
+                technique="deviation-bounded exhaustive enumeration of environment answers (delays, failures) driving the real executor tick by tick, with monitors on the callback stream and on the adapted plan",
+                text="Six solved plans x two tick sizes; every execution with at most 2 (3) non-default environment answers (dont_start_yet / "
+                     "dont_end_yet with delay 1 or 2 at every starting/ending callback, failure of a running atom before every tick) is run to "
+                     "a fixed horizon on a fresh solver+executor; monitors check time advance, exactly-once start/end in order and not before "
+                     "the planned time, no start in a delaying tick, validity of the adapted plan and immobility of started/ended atoms.",
+                note="Small plans (<= 3 atoms); delays of 1-2 units; one request per callback."),
 }
 
 PENDING_REASON = "check not built yet in this round (planned, see DESIGN.md §4); not claimed until its quick and thorough tiers have run to completion on the unchanged tree"
@@ -182,6 +189,8 @@ ENGINES = [
      "kind_free_text": "program-level exhaustive enumeration: Python generators with exact reference semantics, real solver run per program in forked children, validators on the official JSON solution"},
     {"name": "schedmc", "path": "harness/schedmc.cpp + engine/vsched.h + harness/seqref.cpp + harness/racefree.cpp", "serves_properties": ["C20"],
      "kind_free_text": "CHESS-style preemption-bounded schedule exploration over interposed pthread primitives; sequential-build reference; TSan free-running pass"},
+    {"name": "execmc", "path": "harness/execmc.cpp", "serves_properties": ["C19"],
+     "kind_free_text": "deviation-bounded exploration of environment answers over the real executor (recording listener as environment), monitors on callbacks and plan"},
     {"name": "lexmc", "path": "harness/lexmc.cpp", "serves_properties": ["C16", "C18"],
      "kind_free_text": "exhaustive text enumeration through the RIDDLE lexer/parser (reference lexer, AST capture via virtual factories, crash/hang isolation)"},
     {"name": "netmc", "path": "harness/netmc.cpp", "serves_properties": ["C07", "C08", "C09", "C10", "C14"],
